@@ -594,6 +594,17 @@ func scanKnown(src string) []string {
 						}
 					}
 				}
+			case "(":
+				// N06 through the Math.pow rewrite: Math.pow(++a, b) becomes ++a**b, which the minifier's own parser rejects (K76)
+				if isWord(at(i-1), "pow") && isPunct(at(i-2), ".") && isWord(at(i-3), "Math") {
+					nx := at(i + 1)
+					for k := i + 1; isPunct(nx, "("); k++ {
+						nx = at(k + 1)
+					}
+					if isPunct(nx, "++") || isPunct(nx, "--") {
+						found["N06"] = true
+					}
+				}
 			case "**", "**=":
 				if t.s == "**" && isPunct(at(i-1), ")") {
 					depth := 0
